@@ -1144,3 +1144,25 @@ func (fr *Frame) atMapUpdateAsserts(ins *ssa.MapUpdate, k, v Term, st *State) {
 		vc.oblige("assert", fr.tagsFor(at.Clause.Tags), fr.curReach, g, fmt.Sprintf("at update of map %s: %s", name, at.Clause.Text), ins.Pos(), at.Clause)
 	}
 }
+
+// bytes.Buffer as an output stream: Write / WriteString append (never fail), Reset empties.
+func init() {
+	wm := func(fr *Frame, cc *ssa.CallCommon) []string { a, b, c := fr.vc.wrComps(); return []string{a, b, c} }
+	nativeCalls["bytes.(*Buffer).Write"] = &nativeCall{exec: func(fr *Frame, cc *ssa.CallCommon, st *State, pos token.Pos) []Term {
+		fr.nilCheck(fr.val(cc.Args[0]).S, "bytes.Buffer", pos)
+		res := writerWrite(fr, fr.writerID(cc.Args[0]), fr.byteSrc(cc.Args[1], st), st, pos, true)
+		// writes to a bytes.Buffer never return an error
+		fr.vc.assumeIf(fr.curReach, fmt.Sprintf("(= %s 0)", res[1].S))
+		return res
+	}, modifies: wm, doc: "bytes.Buffer.Write appends and never fails"}
+	nativeCalls["bytes.(*Buffer).WriteString"] = nativeCalls["bytes.(*Buffer).Write"]
+	nativeCalls["bytes.(*Buffer).Reset"] = &nativeCall{exec: func(fr *Frame, cc *ssa.CallCommon, st *State, pos token.Pos) []Term {
+		vc := fr.vc
+		fr.nilCheck(fr.val(cc.Args[0]).S, "bytes.Buffer", pos)
+		w := fr.writerID(cc.Args[0])
+		_, wl, wf := vc.wrComps()
+		vc.set(st, wl, fmt.Sprintf("(store %s %s 0)", vc.get(st, wl), w))
+		vc.set(st, wf, fmt.Sprintf("(store %s %s 0)", vc.get(st, wf), w))
+		return nil
+	}, modifies: wm, doc: "bytes.Buffer.Reset"}
+}
